@@ -507,7 +507,7 @@ class Planner:
             if r.random() < 0.6:
                 op['include_source'] = True
             return [(op, info)]
-        if 'name_reuse' in kinds and choice < 0.22 and not prefer_child:
+        if 'name_reuse' in kinds and choice < 0.30 and not prefer_child:
             # "edit the base, re-run everything": an extended root is re-created under its name with
             # edited rules, then a child is re-created from its byte-identical description
             pairs = [(v, k) for v in victims for k in usable
@@ -815,7 +815,9 @@ class Planner:
             'baseline': baseline, 'watch_library': watch_lib,
             # the first run on a universe builds it with the real Grammar(); the others exec the
             # code generated by an earlier real Grammar() call for the same description
-            'setup': 'grammar' if index % self.rpu == 0 else 'exec',
+            # (... and so does a run that re-creates modules: what a cache inside Grammar() remembers of the FIRST
+            # construction of a description only exists if that construction went through Grammar() in this process)
+            'setup': 'grammar' if (index % self.rpu == 0 or any(op.get('recreate') for op in all_ops({'clients': clients}))) else 'exec',
         }
 
 
